@@ -222,24 +222,36 @@ func misuseScenarios() []*sched.Scenario {
 			body(d)
 		}}
 	}
+	// after a refused (panicking) misuse the mutex must be exactly as before: ordinary contention on the same entity
+	// still works (a corrupted consumer count would drop a held lock or lose a wake-up)
+	contend := func(d *syncutils.DAGMutex[string], id string) {
+		vrt.Par(
+			func() { d.Lock(id); vrt.Yield(); d.Unlock(id) },
+			func() { d.Lock(id); d.Unlock(id) },
+			func() { d.RLock(id); vrt.Yield(); d.RUnlock(id) },
+		)
+		d.Lock(id)
+		d.Unlock(id)
+	}
 	out = append(out,
 		dag("Unlock-unknown-id", func(d *syncutils.DAGMutex[string]) func() bool {
 			p, msg := expectPanic(func() { d.Unlock("X") })
 			vrt.Observe("misuse", p, msg)
-			if !p {
-				// state must be unchanged: Lock/Unlock of X still works
-				d.Lock("X")
-				d.Unlock("X")
-			}
+			contend(d, "X")
 			return nil
 		}),
 		dag("RUnlock-unknown-id", func(d *syncutils.DAGMutex[string]) func() bool {
 			p, msg := expectPanic(func() { d.RUnlock("X") })
 			vrt.Observe("misuse", p, msg)
-			if !p {
-				d.Lock("X")
-				d.Unlock("X")
-			}
+			contend(d, "X")
+			return nil
+		}),
+		dag("RUnlock-twice-then-contention", func(d *syncutils.DAGMutex[string]) func() bool {
+			d.RLock("X")
+			d.RUnlock("X")
+			p, msg := expectPanic(func() { d.RUnlock("X") })
+			vrt.Observe("misuse", p, msg)
+			contend(d, "X")
 			return nil
 		}),
 		dag("Unlock-while-only-reader-holds", func(d *syncutils.DAGMutex[string]) func() bool {
@@ -476,6 +488,22 @@ func stackScenarios() []*sched.Scenario {
 		})
 		vrt.Par(func() { s.Pop() }, func() { s.Pop() })
 		w.Join()
+	}})
+	// a consumer parked in PopOrWait takes the pushed element itself: whoever waits for the stack to drain must hear of it
+	out = append(out, &sched.Scenario{Name: "stack/PopOrWait-parked+Push+WaitIsEmpty", Run: func() {
+		s := syncutils.NewStack[int]()
+		c := vrt.Spawn(func() {
+			if _, ok := s.PopOrWait(func() bool { return true }); !ok {
+				vrt.Fail("stack|PopOrWait-no-element", "PopOrWait returned without an element although one was pushed and nothing else pops")
+			}
+		})
+		vrt.Par(
+			func() { s.Push(1) },
+			// returns at once when it finds the stack empty (before the Push, or after the consumer took the element);
+			// when it arrives in between it must be woken by the consumer's removal
+			func() { s.WaitIsEmpty() },
+		)
+		c.Join()
 	}})
 	out = append(out, &sched.Scenario{Name: "stack/WaitSizeIsAbove-Push", Run: func() {
 		s := syncutils.NewStack[int]()
